@@ -14,6 +14,7 @@ import (
 	"testing"
 	"time"
 
+	"github.com/refraction-networking/conjure/pkg/station/log"
 	pb "github.com/refraction-networking/conjure/proto"
 	"google.golang.org/protobuf/proto"
 	"pgregory.net/rapid"
@@ -27,6 +28,8 @@ type c08Op struct {
 	V6     bool   `json:"v6,omitempty"`
 	Ovr    int    `json:"ovr,omitempty"` // 0 = derived phantom, k>0 = registrar-overridden phantom #k
 	DeltaS int64  `json:"delta_s,omitempty"`
+	Tunnel bool   `json:"tunnel,omitempty"` // connect: the handler also relays (Proxy), as it does for every matched connection
+	Mid    string `json:"mid,omitempty"`    // sweep: an operation of this kind (connect | ingest, with this op's Secret/TT/V6/Ovr/Tunnel) arrives between the sweep's collection and removal phases
 }
 
 func (o c08Op) String() string {
@@ -34,7 +37,13 @@ func (o c08Op) String() string {
 	case "adv":
 		return fmt.Sprintf("adv(%s)", time.Duration(o.DeltaS)*time.Second)
 	case "sweep":
+		if o.Mid != "" {
+			return fmt.Sprintf("sweep[%s(s%d,t%d,v6=%v,o%d,tunnel=%v) arrives mid-sweep]", o.Mid, o.Secret, o.TT, o.V6, o.Ovr, o.Tunnel)
+		}
 		return "sweep"
+	}
+	if o.Tunnel {
+		return fmt.Sprintf("%s+relay(s%d,t%d,v6=%v,o%d)", o.Kind, o.Secret, o.TT, o.V6, o.Ovr)
 	}
 	return fmt.Sprintf("%s(s%d,t%d,v6=%v,o%d)", o.Kind, o.Secret, o.TT, o.V6, o.Ovr)
 }
@@ -88,6 +97,15 @@ func c08Key(e *vEnv, reg *DecoyRegistration) string {
 	return reg.PhantomIp.String() + "|" + fmt.Sprintf("%x", t.GetIdentifier(reg))
 }
 
+type c08HookWriter struct{ f func(line string) }
+
+func (w c08HookWriter) Write(p []byte) (int, error) {
+	if w.f != nil {
+		w.f(string(p))
+	}
+	return len(p), nil
+}
+
 // c08Run applies the history to the real registry and to the model and compares after every step.
 // It returns (violation key, message) or ("", "").
 func c08Run(e *vEnv, c c08Case) (key, msg string, stats map[string]bool) {
@@ -97,69 +115,94 @@ func c08Run(e *vEnv, c c08Case) (key, msg string, stats map[string]bool) {
 	start := time.Now()
 	r := e.rm.registeredDecoys
 	sharedSecret := map[string]map[string]bool{} // secret|phantom -> identifiers
+	// doReg / doConnect apply one registration / connection operation to the real registry and to
+	// the model (used for top-level operations and for operations that arrive in the middle of a sweep)
+	doReg := func(step int, o c08Op) (string, string) {
+		reg, err := c08MakeReg(e, o)
+		if err != nil {
+			// e.g. an IPv6 registration whose seed selects a subnet group without IPv6 subnets:
+			// the station refuses the message, nothing is registered
+			stats["registration-refused"] = true
+			return "", ""
+		}
+		k := c08Key(e, reg)
+		ent, exists := model[k]
+		sk := fmt.Sprintf("%d|%s", o.Secret, reg.PhantomIp)
+		if sharedSecret[sk] == nil {
+			sharedSecret[sk] = map[string]bool{}
+		}
+		sharedSecret[sk][k] = true
+		if len(sharedSecret[sk]) > 1 {
+			stats["one-secret-several-transports"] = true
+		}
+		switch o.Kind {
+		case "track":
+			if err := e.rm.TrackRegistration(reg); err != nil {
+				return "harness", fmt.Sprintf("step %d track: %v", step, err)
+			}
+			if !exists {
+				model[k] = &c08Entry{desc: o.String()}
+			} else {
+				stats["duplicate"] = true
+			}
+		case "validate":
+			e.rm.AddRegistration(reg)
+			if !exists {
+				model[k] = &c08Entry{desc: o.String(), valid: true}
+			} else {
+				ent.valid = true
+			}
+		case "ingest":
+			e.rm.ingestRegistration(reg)
+			if !exists {
+				model[k] = &c08Entry{desc: o.String(), valid: true}
+			} else {
+				stats["duplicate"] = true
+			}
+		}
+		return "", ""
+	}
+	doConnect := func(step int, o c08Op) (string, string) {
+		reg, err := c08MakeReg(e, o)
+		if err != nil {
+			stats["registration-refused"] = true
+			return "", ""
+		}
+		k := c08Key(e, reg)
+		id := e.rm.registeredDecoys.transports[reg.Transport].GetIdentifier(reg)
+		found, ok := e.rm.GetRegistrations(reg.PhantomIp)[id]
+		ent := model[k]
+		want := ent != nil && ent.valid
+		if ok != want {
+			return "lookup", fmt.Sprintf("step %d %v: lookup found=%v, model says %v", step, o, ok, want)
+		}
+		if ok {
+			// what the connection handler does with a matched registration: activate, then relay
+			fr := found.(*DecoyRegistration)
+			e.rm.MarkActive(fr)
+			if o.Tunnel {
+				// the relay itself: the covert refuses the connection, the tunnel ends at once
+				fr.Covert = "127.0.0.1:1"
+				c1, c2 := net.Pipe()
+				Proxy(fr, c1, e.rm.Logger)
+				c1.Close()
+				c2.Close()
+				stats["connect-with-tunnel"] = true
+			}
+			ent.used = true
+			stats["connect"] = true
+		}
+		return "", ""
+	}
 	for step, o := range c.Ops {
 		switch o.Kind {
 		case "track", "validate", "ingest":
-			reg, err := c08MakeReg(e, o)
-			if err != nil {
-				// e.g. an IPv6 registration whose seed selects a subnet group without IPv6 subnets:
-				// the station refuses the message, nothing is registered
-				stats["registration-refused"] = true
-				continue
-			}
-			k := c08Key(e, reg)
-			ent, exists := model[k]
-			sk := fmt.Sprintf("%d|%s", o.Secret, reg.PhantomIp)
-			if sharedSecret[sk] == nil {
-				sharedSecret[sk] = map[string]bool{}
-			}
-			sharedSecret[sk][k] = true
-			if len(sharedSecret[sk]) > 1 {
-				stats["one-secret-several-transports"] = true
-			}
-			switch o.Kind {
-			case "track":
-				if err := e.rm.TrackRegistration(reg); err != nil {
-					return "harness", fmt.Sprintf("step %d track: %v", step, err), stats
-				}
-				if !exists {
-					model[k] = &c08Entry{desc: o.String()}
-				} else {
-					stats["duplicate"] = true
-				}
-			case "validate":
-				e.rm.AddRegistration(reg)
-				if !exists {
-					model[k] = &c08Entry{desc: o.String(), valid: true}
-				} else {
-					ent.valid = true
-				}
-			case "ingest":
-				e.rm.ingestRegistration(reg)
-				if !exists {
-					model[k] = &c08Entry{desc: o.String(), valid: true}
-				} else {
-					stats["duplicate"] = true
-				}
+			if k, m := doReg(step, o); k != "" {
+				return k, m, stats
 			}
 		case "connect":
-			reg, err := c08MakeReg(e, o)
-			if err != nil {
-				stats["registration-refused"] = true
-				continue
-			}
-			k := c08Key(e, reg)
-			id := e.rm.registeredDecoys.transports[reg.Transport].GetIdentifier(reg)
-			found, ok := e.rm.GetRegistrations(reg.PhantomIp)[id]
-			ent := model[k]
-			want := ent != nil && ent.valid
-			if ok != want {
-				return "lookup", fmt.Sprintf("step %d %v: lookup found=%v, model says %v", step, o, ok, want), stats
-			}
-			if ok {
-				e.rm.MarkActive(found.(*DecoyRegistration))
-				ent.used = true
-				stats["connect"] = true
+			if k, m := doConnect(step, o); k != "" {
+				return k, m, stats
 			}
 		case "adv":
 			e.vShiftAll(time.Duration(o.DeltaS) * time.Second)
@@ -167,6 +210,38 @@ func c08Run(e *vEnv, c c08Case) (key, msg string, stats map[string]bool) {
 				ent.age += time.Duration(o.DeltaS) * time.Second
 			}
 		case "sweep":
+			midKey, midMsg := "", ""
+			if o.Mid != "" {
+				// an operation arrives while the sweep is between collecting the expired set and
+				// removing it (the sweeper holds no lock there): same outcome as that operation
+				// followed by the sweep, because removal re-examines each entry
+				mid := o
+				mid.Kind = o.Mid
+				old := e.rm.Logger
+				done := false
+				lg := log.New(c08HookWriter{f: func(line string) {
+					if done || !strings.Contains(line, "cleansing registrations") {
+						return
+					}
+					done = true
+					e.rm.Logger = old
+					if mid.Kind == "connect" {
+						midKey, midMsg = doConnect(step, mid)
+					} else {
+						midKey, midMsg = doReg(step, mid)
+					}
+					stats["operation-during-sweep"] = true
+				}}, "", 0)
+				lg.SetLevel(log.DebugLevel)
+				e.rm.Logger = lg
+				e.rm.RemoveOldRegistrations()
+				e.rm.Logger = old
+			} else {
+				e.rm.RemoveOldRegistrations()
+			}
+			if midKey != "" {
+				return midKey, midMsg + " (operation arriving during the sweep)", stats
+			}
 			slack := time.Since(start) + 50*time.Millisecond
 			// entries whose expiry depends on the real time elapsed during this test are ambiguous
 			amb := map[string]bool{}
@@ -180,7 +255,6 @@ func c08Run(e *vEnv, c c08Case) (key, msg string, stats map[string]bool) {
 					amb[k] = true
 				}
 			}
-			e.rm.RemoveOldRegistrations()
 			impl := c08Tracked(r)
 			for k, ent := range model {
 				lim := c08Unused
@@ -302,9 +376,9 @@ func c08Check(t vh.Fataler, rec *vh.Rec, e *vEnv, c c08Case) {
 
 // Exhaustive short histories over an 8-symbol alphabet.
 func TestVerif_C08_exhaustive(t *testing.T) {
-	rec := vh.NewRec("C08", "exhaustive", "all histories up to length L over the alphabet {ingest(s0,min), ingest(s0,prefix), ingest(s1,min), connect(s0,min), adv 9m59s, adv 5h55m, adv 6m, sweep}, each followed by a final sweep; non-trivial = a sweep removed one entry while keeping another, or one secret registered under several transports on one phantom; distinct by history")
+	rec := vh.NewRec("C08", "exhaustive", "all histories up to length L over the alphabet {ingest(s0,min), ingest(s0,prefix), ingest(s1,min), connect+relay(s0,min), adv 9m59s, adv 5h55m, adv 6m, sweep, sweep during which connect(s0,min) arrives between collection and removal}, each followed by a final sweep; non-trivial = a sweep removed one entry while keeping another, or one secret registered under several transports on one phantom; distinct by history")
 	defer rec.Flush()
-	rec.Require("sweep-removes-some-keeps-some", "one-secret-several-transports", "connect", "duplicate")
+	rec.Require("sweep-removes-some-keeps-some", "one-secret-several-transports", "connect", "duplicate", "connect-with-tunnel", "operation-during-sweep")
 	e := vNewEnv(t, nil, "")
 	if p := vh.ReplayFile(); p != "" {
 		var c c08Case
@@ -318,13 +392,14 @@ func TestVerif_C08_exhaustive(t *testing.T) {
 		{Kind: "ingest", Secret: 0, TT: 0},
 		{Kind: "ingest", Secret: 0, TT: 1},
 		{Kind: "ingest", Secret: 1, TT: 0},
-		{Kind: "connect", Secret: 0, TT: 0},
+		{Kind: "connect", Secret: 0, TT: 0, Tunnel: true},
 		{Kind: "adv", DeltaS: 9*60 + 59},
 		{Kind: "adv", DeltaS: 5*3600 + 55*60},
 		{Kind: "adv", DeltaS: 6 * 60},
 		{Kind: "sweep"},
+		{Kind: "sweep", Mid: "connect", Secret: 0, TT: 0},
 	}
-	maxLen := vh.Pick(5, 8)
+	maxLen := vh.Pick(5, 7)
 	rec.SetExhaustive(true)
 	idx := 0
 	var gen func(prefix []c08Op)
@@ -357,7 +432,17 @@ func c08Gen(rt *rapid.T) c08Case {
 		case "adv":
 			o.DeltaS = rapid.SampledFrom(deltas).Draw(rt, "delta")
 		case "sweep":
+			if rapid.IntRange(0, 3).Draw(rt, "midp") == 0 {
+				o.Mid = rapid.SampledFrom([]string{"connect", "connect", "ingest"}).Draw(rt, "mid")
+				o.Secret = rapid.IntRange(0, 3).Draw(rt, "secret")
+				o.TT = rapid.IntRange(0, 2).Draw(rt, "tt")
+				o.V6 = rapid.Bool().Draw(rt, "v6")
+				o.Tunnel = rapid.Bool().Draw(rt, "tunnel")
+			}
 		default:
+			if k == "connect" {
+				o.Tunnel = rapid.Bool().Draw(rt, "tunnel")
+			}
 			o.Secret = rapid.IntRange(0, 3).Draw(rt, "secret")
 			if rapid.IntRange(0, 2).Draw(rt, "widesecret") == 0 {
 				// identifiers are raw HMAC / key bytes: vary them widely (data-dependent handling)
@@ -379,9 +464,9 @@ func c08Gen(rt *rapid.T) c08Case {
 // 3 transports, both families, registrar-overridden phantoms that make different secrets share a
 // phantom).
 func TestVerif_C08_random(t *testing.T) {
-	rec := vh.NewRec("C08", "random", "rapid-generated histories of 1-120 operations over 4 secrets x {min,prefix,obfs4} x {v4,v6} x {derived, overridden phantom}; non-trivial as in the exhaustive sub-check; distinct by history")
+	rec := vh.NewRec("C08", "random", "rapid-generated histories of 1-120 operations (track, validate, ingest, connect with or without the relay step, advance time, sweep, sweep during which a connect or ingest arrives between collection and removal) over 4 secrets x {min,prefix,obfs4} x {v4,v6} x {derived, overridden phantom}; non-trivial as in the exhaustive sub-check; distinct by history")
 	defer rec.Flush()
-	rec.Require("sweep-removes-some-keeps-some", "one-secret-several-transports", "connect")
+	rec.Require("sweep-removes-some-keeps-some", "one-secret-several-transports", "connect", "connect-with-tunnel", "operation-during-sweep")
 	e := vNewEnv(t, nil, "")
 	if p := vh.ReplayFile(); p != "" {
 		var c c08Case
